@@ -196,8 +196,29 @@ PROBES = [
     ("lambda-break", "λ7001X7002;"), ("lambda-recurse", "λ7001x7002;"), ("function-break", "@f|7001X7002;"), ("function-recurse", "@f|7001x7002;"),
     ("for-if-break", "(7001[X]7002)"), ("for-list-break", "(⟨7001X⟩)"), ("lambda-if-break", "λ[7001X];"), ("map-break", "ƛ7001X;"),
     ("top-break", "7001X7002"), ("top-recurse", "7001x"),
+    # (hole 7005 instead of 7001 where the first hole sits inside a loop: C11's own-scope obligation is tied to hole 7001 at the
+    # head of a lambda body, and inside a loop the cursor may already have advanced)
+    # early exits whose lowering depends on what encloses them two levels up: in the condition of a while loop nested in
+    # another structure, and after a modifier (with its operand) inside a loop body inside a lambda
+    ("for-while-cond-break", "(7001{7002X|7003})"), ("while-while-cond-break", "{7001|{7002X|7003}}"), ("lambda-while-cond-break", "λ{7005X|7002};"), ("for-while-cond-continue", "(7001{7002x|7003})"),
+    ("for-mod-break", "(v7001 X7002)"), ("lambda-for-mod-break", "λ(⁽7001 7002X)7003;"), ("lambda-while-mod-break", "λ{7005|v7002 X};"), ("lambda-for-mod2-break", "λ(₌7001 7002 X)7003;"), ("lambda-mod-break", "λv7001 X7002;"),
 ]
 LOOP_INV = dict(inv=DEPTHS + BELOW + ["len(ctx.inputs) >= 1"])
+
+
+def _loop_inv(dcv, dins=0, dst=0, dfs=0):
+    """loop invariant of a loop that runs at a known distance above the unit's entry depths: inside a lambda / function body
+    all four bookkeeping lists are one deeper, inside an enclosing loop the context values are one deeper"""
+    return dict(inv=[f"len(ctx.context_values) == len(cv0) + {dcv}", f"len(ctx.inputs) == len(ins0) + {dins}", f"len(ctx.stacks) == len(st0) + {dst}", f"len(ctx.function_stack) == len(fs0) + {dfs}"]
+                + BELOW + ["len(ctx.inputs) >= 1"])
+
+
+# probe -> unit kind -> loop ordinal -> invariant (default: LOOP_INV, the loop runs at the unit's entry depths)
+NESTED_LOOPS = {
+    "for-while-cond-break": {"top": {1: _loop_inv(1)}}, "for-while-cond-continue": {"top": {1: _loop_inv(1)}}, "while-while-cond-break": {"top": {1: _loop_inv(1)}},
+    "lambda-while-cond-break": {"lambda": {0: _loop_inv(1, 1, 1, 1)}}, "lambda-for-mod-break": {"lambda": {0: _loop_inv(1, 1, 1, 1)}},
+    "lambda-while-mod-break": {"lambda": {0: _loop_inv(1, 1, 1, 1)}}, "lambda-for-mod2-break": {"lambda": {0: _loop_inv(1, 1, 1, 1)}},
+}
 
 
 def _hole(ex, fr, k):
@@ -256,7 +277,7 @@ class StructExecutor(LeafExecutor):
         return super().e_Name(n, fr)
 
 
-def struct_contract(kind):
+def struct_contract(kind, probe=None):
     ens = list(DEPTHS + BELOW)
     names = ["C12-context_values", "C12-inputs", "C12-stacks", "C12-function_stack", "C12-cv-below", "C12-stacks-below", "C12-fs-below"]
     params = dict(stack=ListOf(VAL), ctx=full_ctx())
@@ -275,7 +296,7 @@ def struct_contract(kind):
         requires=["len(ctx.inputs) >= 1", "len(ctx.context_values) >= 1", "len(ctx.stacks) >= 1", "ctx.default_arity >= 0"] + (["arity >= -1"] if "arity" in params else []),
         ensures=ens, ensures_names=names,
         modifies=list(params)[:1] + CTX_MODS, frame_check=False, fuel=1, may_raise=True,
-        loops={i: LOOP_INV for i in range(8)},
+        loops={**{i: LOOP_INV for i in range(8)}, **NESTED_LOOPS.get(probe, {}).get("top" if kind == "top" else kind, {})},
     )
 
 
@@ -304,7 +325,7 @@ def structure_templates(world, lo, hi):
         texts.append((name, prog, text))
         try:
             compile(text.replace("HOLE_", "HOLE"), "<probe>", "exec")
-            key = register_template(f"struct[{name}]", text, struct_contract("top"))
+            key = register_template(f"struct[{name}]", text, struct_contract("top", name))
         except SyntaxError as e:
             # emitted Python that does not compile executes nothing: that is C02's subject, not C11/C12's
             rep.path_notes.append(f"{name}: emitted Python does not compile ({e.msg}); left to C02")
@@ -317,7 +338,7 @@ def structure_templates(world, lo, hi):
             fn = RealFn(k2, nd, elements_globals())
             fn.relpath = "template"
             world.fn_index[k2] = fn
-            world.contracts[k2] = Contract(k2, **struct_contract(kind))
+            world.contracts[k2] = Contract(k2, **struct_contract(kind, name))
             units.append((k2, kind))
         for k2, kind in units:
             r = verify_function(world, k2, executor_cls=StructExecutor)
